@@ -146,6 +146,29 @@ func RaceWorkload(reps int) {
 	}
 	wg.Wait()
 	chips, cross := c06RaceWorkload2()
+	// whole verifier circuits defined concurrently (the web API proves requests concurrently):
+	// every run must accept, and the race detector watches the repository's shared state
+	wcRuns, wcBad := 0, 0
+	{
+		var wg2 sync.WaitGroup
+		var mu2 sync.Mutex
+		in := getInst("A_testdata").Restrict(1)
+		for g := 0; g < 6; g++ {
+			wg2.Add(1)
+			go func(g int) {
+				defer wg2.Done()
+				face := []engine.Face{engine.Native, engine.Commit}[g%2]
+				res := runVerifier(in.Clone(), engine.Options{Face: face})
+				mu2.Lock()
+				wcRuns++
+				if res.Verdict != engine.Accept {
+					wcBad++
+				}
+				mu2.Unlock()
+			}(g)
+		}
+		wg2.Wait()
+	}
 	unstable := 0
 	total := 0
 	for _, m := range outcomes {
@@ -156,7 +179,7 @@ func RaceWorkload(reps int) {
 			total += n
 		}
 	}
-	b, _ := json.Marshal(map[string]any{"ids": len(ids), "resolutions": total, "unstable_ids": unstable, "chip_runs": chips, "crosstalk": cross})
+	b, _ := json.Marshal(map[string]any{"ids": len(ids), "resolutions": total, "unstable_ids": unstable, "chip_runs": chips, "crosstalk": cross, "whole_circuit_runs": wcRuns, "whole_circuit_not_accepted": wcBad})
 	fmt.Println("RACEWORK " + string(b))
 }
 
